@@ -70,7 +70,7 @@ func runXZ(c *hx.Ctx, g XZCfg, hist []string, seed int64, fixedData [][]byte) XZ
 			} else {
 				data = payload(tok, seed, i, W2Cfg{Matcher: g.Matcher, DictCap: g.DictCap})
 			}
-			p = safely(func() { n, e = w.Write(data) })
+			p = safely(func() { n, e = writeVia(w, data, fixedData == nil && (seed+int64(i))%4 == 0) })
 		}
 		res.NCalls++
 		delta := sink.Buf.Len() - before
